@@ -629,12 +629,14 @@ def configs(tier):
             f'real-dtype sweepmatch Toric3DCode(2,3,2) uint8 {wm}', f'real-dtype sweepmatch Planar3DCode(3,2,2) uint8 {wm}',
             f'real-dtype rotatedsweepmatch RotatedPlanar3DCode(2,3,2) uint8 {wm}',
             f'real-dtype rotatedsweepmatch RotatedPlanar3DCode(3,2,3) uint8 {wm}', f'real-dtype mbp Toric2DCode(2,3) uint8 {wm}']
+    out += ['real-dtype rotatedsweepmatch RotatedPlanar3DCode(2,3,2) float64 wmax=1', 'real-dtype sweepmatch Toric3DCode(2,3,2) float64 wmax=1',
+            'real-dtype xcube XCubeCode(2,2,2) float64 wmax=1', 'real-dtype mbp Toric2DCode(2,3) bool wmax=1']
     if tier != 'quick':
         out += ['real-dtype xcube XCubeCode(4,3,2) uint8 wmax=1', 'real-dtype sweepmatch Toric3DCode(2,3,4) uint8 wmax=1',
                 'real-dtype rotatedsweepmatch RotatedPlanar3DCode(4,3,2) uint8 wmax=1',
                 'real-dtype mbp RotatedPlanar2DCode(3,4)/XZZX/x uint8 wmax=1']
     # other accepted array representations of the syndrome, real engines
-    for dt in ('bool', 'int64'):
+    for dt in ('bool', 'int64', 'float64'):
         out += [f'real-dtype matching Toric2DCode(3,3) {dt}', f'real-dtype bposd Toric2DCode(2,3) {dt}',
                 f'real-dtype matching Planar2DCode(3,3) {dt}', f'real-dtype unionfind Toric2DCode(3,3) {dt}']
     out += [f'real-dtype unionfind Toric2DCode(4,4) bool {l}' for l in (1, 2, 3)]
